@@ -4,13 +4,71 @@ import json, os, subprocess
 V = os.path.dirname(os.path.dirname(os.path.abspath(__file__)))
 PY = 'python3-vt'
 
+def C(cat, tech, text, note, ref):
+    return dict(cat=cat, tech=tech, text=text, note=note, ref=ref)
+
+
+STRUCT = ('Decides structural necessary conditions of the property on every path of the anchored code (for every input, schedule '
+          'and history); the numeric/trajectory clauses listed in DESIGN.md section 4 are NOT decided by this check. ')
+
 CLAIMS = {
- 'C05': dict(cat='proof', tech='abstract interpretation over a finite order domain (exhaustive NaN/inf/ordering scenarios) + typestate over the loop-body CFG',
-   text='Decides the step/clock/stop protocol of the generic solver on all paths: the dt clamp is interpreted for every ordering scenario of (proposal, lower, upper) incl. NaN, +-inf, zero, negative and lower>upper; the loop body of DESolver.solve is checked as a typestate (upper bound limited to remaining time, one iterator call, one clock update by the returned dt, one postProcess defining stop); built-in iterators return the dt unmodified; unflatten cursors advance by exactly what they read and the Coupler records sizes on every flatten. From these the time contract follows over the reals for every model.',
-   note='Real arithmetic for the clock (floating-point exactness of the last step and termination with minDtFrac=0 are not decided); user-supplied iterators and shape preservation beyond the cursor rule are not decided; trusted: Python ast, kverif engines.', ref='4/C05'),
- 'C06': dict(cat='proof', tech='symbolic extraction of the Butcher tableau from the AST + exact rational order conditions; alias/purity analysis',
-   text='The Butcher tableau (c, A, b) of each built-in iterator is extracted from its source by abstract interpretation over polynomial forms and the order conditions up to the nominal order (Euler 1, RK4 4: 8 conditions), the row-sum consistency c_i = sum_j a_ij (needed exactly for time-dependent right-hand sides) and the documented stage times are discharged with exact rationals; by the order-condition theorem this decides the order of accuracy for all smooth problems. The wrapper _updateX is shown to be x + F(dxdt)*dt and no iterator writes through an alias of the state it was given.',
-   note='Trusted: order-condition theorem for Runge-Kutta methods, sympy rational arithmetic, Python ast; the model\'s own getdXdt/correctdXdt are outside the clause; user iterators are not covered.', ref='4/C06'),
+ 'C01': C('other', 'formula/factor extraction with local inlining, dominator analysis, ownership with view-alias tracking, must-precede dataflow',
+   STRUCT + 'Here: the mass balance the statement spells out is what the code encodes - one prefactor Vm_a/Vm_b(p)*volumeFactor(p) on the volume fraction and every precipitate-content term, third moments of the argument distribution, face-averaged precipitate composition weights, x = (x0 - sum fconc)/(1 - sum fv), no return bypassing the balance, no other writer of the balance slots (also through views), and recompute-then-append-then-update order in postProcess.',
+   'The trajectory invariant itself (equality at every recorded step) is not decided; trusted: Python ast, kverif engines, C08 R8.1 for the moment functions.', '4/C01'),
+ 'C02': C('other', 'moment-table matching, collecting semantics over loop-body CFGs (must-write on every exit), symbolic field-state execution',
+   STRUCT + 'Here: density/mean radius/volume fraction are assigned from the moments of the stated order of the distribution passed in, the re-used record is completely rewritten on every path (empty phase, early exits of the nucleation routine), truncation precedes recording, nuclei enter one class of a telescoping upwind stencil, the grid is extended whenever the last class fills, and the class removals applied before and after agree.',
+   'Equality of histories and moments along a run and the dissolution bound are not decided.', '4/C02'),
+ 'C03': C('other', 'table agreement, ownership, definite assignment over a statement CFG (whole package), null-flow with branch facts, must-precede dataflow',
+   STRUCT + 'Here: one attribute table drives creation/append/slice/save/load of all histories, nothing outside PrecipitationData rebinds a history, every local is definitely assigned on every path of every function (763), every use of a may-return-None backend result is guarded, volume-fraction stores are bounded, the growth array follows the size-class grid, and the solver clock contract (C05) holds.',
+   'Finiteness and ranges of recorded values for all configurations are not decided; Surrogate.py is outside the null-flow rule (correlated branches).', '4/C03'),
+ 'C04': C('other', 'slice typing of the flux form, boundary-table matching, symbolic execution of setup() under the is-setup flag, ownership',
+   STRUCT + 'Here: the rate is the negative first difference of one face array over a constant cell width (telescoping identity), end faces are written last from the boundary table by element name, setup() writes and records nothing once the model is set up (no drift over repeated solve calls), compositions are clipped before recording, and model constructors share no mutable defaults.',
+   'The conserved sums in floating point and the homogenization flux-frame numerics are not decided.', '4/C04'),
+ 'C05': C('proof', 'abstract interpretation over a finite order domain (exhaustive NaN/inf/ordering scenarios) + typestate over the loop-body CFG',
+   'Decides the step/clock/stop protocol of the generic solver on all paths: the dt clamp is interpreted for every ordering scenario of (proposal, lower, upper) incl. NaN, +-inf, zero, negative and lower>upper; the loop body of DESolver.solve is checked as a typestate (upper bound limited to remaining time, one iterator call, one clock update by the returned dt, one postProcess defining stop); built-in iterators return the dt unmodified; unflatten cursors advance by exactly what they read and the Coupler records sizes on every flatten. From these the time contract follows over the reals for every model.',
+   'Real arithmetic for the clock (floating-point exactness of the last step and termination with minDtFrac=0 are not decided); user-supplied iterators and shape preservation beyond the cursor rule are not decided; trusted: Python ast, kverif engines.', '4/C05'),
+ 'C06': C('proof', 'symbolic extraction of the Butcher tableau from the AST + exact rational order conditions; alias/purity analysis with opaque callables',
+   'The Butcher tableau (c, A, b) of each built-in iterator is extracted from its source by abstract interpretation over polynomial forms and the order conditions up to the nominal order (Euler 1, RK4 4: 8 conditions), the row-sum consistency c_i = sum_j a_ij (needed exactly for time-dependent right-hand sides) and the documented stage times are discharged with exact rationals; by the order-condition theorem this decides the order of accuracy for all smooth problems. Every wrapper between iterator and model forwards the stage time, _updateX is x + F(dxdt)*dt, flattening copies, and no iterator writes through an alias of the state or of what the callback returned.',
+   "Trusted: order-condition theorem for Runge-Kutta methods, sympy rational arithmetic, Python ast; user iterators are not covered.", '4/C06'),
+ 'C07': C('other', 'slice typing of vectorised stencils (telescoping first difference, upwind alignment, limiter table), formula matching, purity',
+   STRUCT + 'Here: both transport functions return F[:-1]-F[1:] of one freshly zeroed face array plus nucRate in the class containing the nucleation radius (sum telescopes exactly), each face term couples growth, population and sign mask of the same slice, the limiter clamps all bins+1 faces by -/+psd/dt, and the step limit is ratio*width/max|growth| over populated classes above the dissolution index.',
+   'Non-negativity for all step sizes and dynamic ranges is a numeric consequence, not decided; a rewrite as explicit loops is reported as undecided.', '4/C07'),
+ 'C08': C('other', 'symbolic field-state execution of every grid-writing method (all paths), structural comparison of final terms',
+   STRUCT + 'Here: on exit of every grid operation, for every entry state, centres are midpoints of the final boundaries and boundaries/min/max/bins agree; extend is prefix preserving; re-mesh multiplies the interpolated distribution by old/new third moment and nothing else; adaptive adjustment ends at minBins/maxBins or below the maximum; reset restores the originals; *FromN moments depend only on their argument; a loaded grid is rebuilt from the saved scalars.',
+   'Strict monotonicity of boundaries, exactness of the rescaled moment in floating point and minBins<=maxBins are not decided.', '4/C08'),
+ 'C09': C('other', 'interprocedural may-alias/purity analysis with numpy view tables, symbolic execution of the cache switch, key/argument agreement, must-pass-through',
+   STRUCT + 'Here: no query writes through an alias of its array arguments (33 parameter instances through all kawin callees), the cache can be switched off (lookup/insert executed symbolically for both flag values), lookups and inserts use the same key function and the same (x,T), supplied composition sets are refreshed and cached samples reused only at equal temperature, every driving-force method passes the removeCache reset, and batching at T[0] is guarded by a whole-array predicate.',
+   'Equality of returned values across query histories (pycalphad internals) is not decided.', '4/C09'),
+ 'C11': C('other', 'order-type system (alphabetical vs user order) at all argsort sites, loop equivariance analysis with liveness, closure-capture rule',
+   STRUCT + 'Here: every alphabetical (pycalphad) value is converted with argsort(argsort(elements[slice])) before it is returned, stored or combined with a user-ordered value, matrices on both axes; every loop over phases/coupled models writes only at the loop index, into iteration-local temporaries or through commutative reductions; no closure captures a loop variable; boundary conditions are addressed by element name.',
+   'Numerical equality of paired runs is not decided.', '4/C11'),
+ 'C12': C('other', 'formula extraction from five functions to sympy and exact identity checking; call-site agreement; quantity-kind typing',
+   'Decides only the growth-law/critical-radius chain: growth = (mc/R)(dG - g), g(R) = Vm(E_el + 2f*gamma/R), dG_v = dG_chem/Vm - E_el, Rcrit = 2f*gamma/dG_v and the call-site bindings are extracted and the identity growth(Rcrit) = 0 with positive slope is checked exactly (residual -E_el*Vm: known finding F18; exact for E_el = 0); binary lookup uses the same Gibbs-Thomson function; aspect ratios and radii reach the right level of the shape API; sample cache is temperature guarded.',
+   'All clauses comparing two equilibrium calculations (solvus = zero of the driving force, monotonicity in g, sentinel, agreement of the four methods) are not decided.', '4/C12'),
+ 'C13': C('other', 'symbolic execution of constructor vs setter (path-wise equality), typestate of the refresh rule, evaluation-site def-use, sibling agreement',
+   STRUCT + 'Here: constructor and setter of TemperatureParameters leave the same flag/parameters on every argument shape, the three setters set the isothermal flag, the accumulated temperature change is incremented before the test and (rebuild <=> reset) on every path with the current temperature, the accumulator is zeroed nowhere else without a full rebuild, every stored temperature is the schedule at the time stored in the same record (time written => temperature written), both schedule classes interpolate t/3600.',
+   'Closeness of tabulated compositions to an independent evaluation is not decided.', '4/C13'),
+ 'C14': C('other', 'cache-freshness by symbolic execution of all methods (caches discovered from lazy-property idiom), exact sympy identities on extracted formulas, mask structure',
+   STRUCT + 'Here: every lazily cached factor is None after any write of gamma/gbEnergy/site type; area - 2k*removed - 3*volume == 0, the k=0 limits and the reduction of Rcrit/Gcrit to the classical values are exact identities of the extracted formulas; outputs are zero-initialised and written only under the positive-driving-force / non-zero masks; occupied sites are summed over all phases of the same site type and returned through max(.,0).',
+   'Finiteness, monotonicity in dG and k and the incubation factor range are not decided.', '4/C14'),
+ 'C15': C('other', 'alias/purity analysis, exact sympy identities and one-sided limits on extracted closed forms, dtype rule, derived-state rule',
+   STRUCT + 'Here: no factor function writes into its aspect-ratio/radius argument; unit volume and axis ratio of the semi-axes, the sphere limits of needle/plate factors and continuity at aspect ratio 1 (value used below 1 == limit of the shape formula) are exact; result buffers are float; ShapeFactor keeps no value derived from a previous description.',
+   'Agreement with quadrature of area/capacitance integrals, monotonicity and the bisection tolerance are not decided.', '4/C15'),
+ 'C16': C('other', 'derived-state freshness by symbolic execution, literal evaluation of quadrature tables with exact trigonometry, exact replay of modulus conversions, non-commutative operator normal forms',
+   STRUCT + 'Here: the rotated tensors are recomputed after every write of a rotation/stiffness (order independence); quadrature weights sum to 1 with the orbit multiplicities, point counts are the documented ones and the closed A-orbits are the octahedral orbits, the C-orbit generator/table contract holds (known finding F21: it does not); all 15 modulus conversions reproduce (E,nu,G); Voigt maps are inverse tables; fourth-rank and 6x6 energy routines are the same operator expression.',
+   'Positivity, scaling laws, rotation invariance and closed forms are not decided. F21 (Lebedev orbits) is a recorded known finding: its repair changes values pinned by 3 existing tests.', '4/C16'),
+ 'C17': C('other', 'taint rule for phase addressing, symmetric-axis rule, registry tables, formula shape with the phase sum as opaque linear operator, purity',
+   STRUCT + 'Here: rows of the per-stable-phase arrays are never selected by a position in the database phase list and the stable phase names travel with the arrays; averaging rules consume the phase axis only by reductions; keyword/id/function registries are total and map to namesakes; Wiener/labyrinth/Hashin-Shtrikman have the stated form with the sum taken before the non-linear map; averaging rules do not write into the cached arrays.',
+   'Ordering of the bounds and their values are not decided.', '4/C17'),
+ 'C18': C('other', 'sibling sanitising rule, symbolic execution of history growth, must-precede dataflow, formula/prefactor agreement, purity',
+   STRUCT + 'Here: weak/strong/Orowan arrays pass the same negative|non-finite mask; each strength history grows by exactly one entry per host step on every path and the host updates coupled models once per step after its record; grain growth is solved over exactly the host step; strength = M*min(weak,strong,Orowan) without rescaling its arguments; Zener drag carries the growth-law prefactor and freezes the band.',
+   'Positivity/monotonicity of the individual formulas and grain-volume conservation are not decided.', '4/C18'),
+ 'C19': C('other', 'attribute-protocol check against the class hierarchy, symbolic execution of the latch, all-paths polling rule, table rules, solver typestate',
+   'The stopping protocol is shape and is decided on all paths: every attribute a condition reads exists on the host, a met condition is never re-evaluated and its time is written with the transition only (exact interpolation formula), every registered condition is polled on every step before the or/and fold, each condition reads the history of its name with the selection it was given, the solver ends on the returned flag, the TTP calculator resets before every run.',
+   'That the interpolated crossing time lies inside the step is numeric and not decided.', '4/C19'),
+ 'C20': C('other', 'delegation/forwarding agreement, save/load key-table agreement, symbolic execution of toDict under present/absent recordings, protocol check',
+   STRUCT + 'Here: every untrained surrogate getter returns its namesake on the thermodynamics object with all its own parameters, internal delegations forward the phase selection; save and load agree on their key tables for precipitation, diffusion, surrogate and strength models; recordings are saved exactly when they exist and None is never saved; every thermodynamics method the precipitation model calls exists on all four thermodynamics/surrogate classes.',
+   'Exact reproduction of array contents and interpolation at training points are not decided.', '4/C20'),
 }
 
 NOT_APPLICABLE = {
